@@ -280,9 +280,299 @@ def run(rep, facts, tier):
     # convergence and was reported only by ./check C03 or ./check C04)
     from rdv import report as _report
     _report.borrow(rep, facts, tier, 'C03', {'R03.3': 'R02.7', 'R03.9': 'R02.8', 'R03.12': 'R02.9'})
-    _report.borrow(rep, facts, tier, 'C04', {'R04.1': 'R02.10', 'R04.4': 'R02.11', 'R04.6': 'R02.12'})
+    _report.borrow(rep, facts, tier, 'C01', {'R01.14': 'R02.17'})
+    _report.borrow(rep, facts, tier, 'C04', {'R04.1': 'R02.10', 'R04.4': 'R02.11', 'R04.6': 'R02.12', 'R04.13': 'R02.15', 'R04.9': 'R02.18', 'R04.10': 'R02.19', 'R04.11': 'R02.20'})
 
     # ------------------------------------------------------------ R02.13 (mutation triage: `!=` -> `==` / `&&` -> `||` in the destination filter survived every check and the suite)
     from rules import destfilter
     destfilter.run_rule(rep, fx, 'R02.13', 'default', floor=2)
 
+    # ------------------------------------------------------------ R02.14 (mutation triage: `final_flag = true` in the periodic HEARTBEAT survived)
+    rule_heartbeat_solicits(rep, fx, 'R02.14')
+
+    # ------------------------------------------------------------ R02.15 = R04.13 (borrowed below); R02.16 (mutants deleting irrelevant_changes_up_to / its body survived C01-C04)
+    rule_unavailability_applied(rep, fx, 'R02.16')
+    rule_handler_admission(rep, fx, 'R02.21')
+
+
+
+def rule_heartbeat_solicits(rep, fx, rid):
+    """A reliable stateful Writer learns what a Reader has only from ACKNACKs, and a Reader that misses nothing answers a HEARTBEAT only if its Final flag is clear."""
+    rep.rule(rid, 'heartbeats solicit an answer: every MessageBuilder::heartbeat_msg call of rtps::Writer passes set_final_flag = false; heartbeat_msg sets HEARTBEAT_Flags::Final only '
+                  'under its set_final_flag parameter; the MessageReceiver hands handle_heartbeat_msg `flags.contains(Final)` of the flags that came with that HEARTBEAT; and the '
+                  'Reader answers whenever something is missing or the flag is clear (R02.4). Otherwise a Reader that received everything by push never acknowledges: the '
+                  'HEARTBEATs never stop and wait_for_acknowledgments never completes')
+    hb = fx.find('rtps::message::MessageBuilder::heartbeat_msg')
+    rep.analysed(hb)
+    pidx = [l for l in hb.local_by_name('set_final_flag') if 1 <= l <= hb.argc]
+    if len(pidx) != 1:
+        raise CheckBroken('heartbeat_msg has no parameter named set_final_flag')
+    pidx = pidx[0]
+    n = 0
+    for b in fx.bodies:
+        if not b.key.startswith('rtps::writer::'):
+            continue
+        og = None
+        for bb, t in b.calls():
+            if not call_matches(t, 'MessageBuilder::heartbeat_msg'):
+                continue
+            og = og or Origins(b, summaries=False)
+            n += 1
+            v = og.of_operand(t['args'][pidx - 1], bb, 'term')
+            ok = v[0] == 'const' and v[1] in ('int', 'bool') and str(v[2]) in ('false', '0', 'False')
+            rep.check(ok, rid, '%s/final-flag#%d' % (b.key.rsplit('::', 1)[-1], n), 'set_final_flag = false',
+                      '%s sends a HEARTBEAT whose Final flag is %s instead of a constant false: a reader that misses nothing does not answer it, so the writer never learns that the samples arrived' %
+                      (b.key.rsplit('::', 1)[-1], term_str(v)), b.where(bb))
+    rep.floor(rid, n, 4, 'heartbeat_msg calls in rtps::writer')
+    # the builder: Final inserted only under the parameter
+    og = Origins(hb, summaries=False)
+    P = Pos(hb)
+    edges = list(switch_edges(hb, fx, og))
+    t_edges = [(s_, t_) for s_, t_, cond, lab in edges if lab is True and cond == ('param', pidx)]
+    f_edges = [(s_, t_) for s_, t_, cond, lab in edges if lab is False and cond == ('param', pidx)]
+    ins = []
+    for bb, t in hb.calls():
+        if callee_res(t).endswith('BitFlags::<T>::insert') and len(t['args']) == 2:
+            v = og.of_operand(t['args'][1], bb, 'term')
+            if term_has(v, lambda x: x[0] == 'agg' and str(x[1]).endswith('HEARTBEAT_Flags::Final')):
+                ins.append(bb)
+    ok = bool(ins) and bool(t_edges) and all(P.every_path_passes((0, 0), (bb, 'term'), via_edges=t_edges, from_entry=True) for bb in ins)
+    ok = ok and all(not P.can_reach((t_, 0), (bb, 'term')) for s_, t_ in f_edges for bb in ins)
+    rep.check(ok, rid, 'heartbeat_msg/final-under-parameter', 'insert(Final) exactly under set_final_flag',
+              'MessageBuilder::heartbeat_msg sets the Final flag on a path where set_final_flag is false (or never): the flag on the wire is not the one the Writer asked for', hb.where(ins[0] if ins else 0))
+    # the receiver: flag of the very heartbeat
+    hw = fx.find('rtps::message_receiver::MessageReceiver::handle_writer_submessage')
+    og = Origins(hw, summaries=False)
+    m = 0
+    for bb, t in hw.calls():
+        if call_matches(t, 'Reader::handle_heartbeat_msg'):
+            m += 1
+            v = og.of_operand(t['args'][2], bb, 'term')
+            ok = v[0] == 'call' and v[1].endswith('::contains') and term_has(v, lambda x: x[0] == 'agg' and str(x[1]).endswith('HEARTBEAT_Flags::Final')) and \
+                term_has(v, lambda x: x[0] == 'variant' and x[1] == 'Heartbeat')
+            rep.check(ok, rid, 'handle_writer_submessage/final-flag-read#%d' % m, 'final_flag_set = flags.contains(Final) of this HEARTBEAT',
+                      'the Reader is told final_flag_set = %s instead of the Final flag of the HEARTBEAT it is handed' % term_str(v)[:120], hw.where(bb))
+    rep.floor(rid, m, 1, 'handle_heartbeat_msg call in the MessageReceiver')
+
+
+def rule_unavailability_applied(rep, fx, rid):
+    """R03.12 decides what irrelevant_changes_range / set_irrelevant_change do; this rule decides that the two handlers call them with what the writer declared."""
+    rep.rule(rid, 'declared unavailability takes effect: the HEARTBEAT worker calls irrelevant_changes_up_to(heartbeat.first_sn) on the proxy on every path to the missing-number scan '
+                  'and the marker update (only the stale-count exit skips it), irrelevant_changes_up_to(x) is irrelevant_changes_range(c <= 1, x) on every path; handle_gap_msg calls '
+                  'irrelevant_changes_range(gap.gap_start, gap.gap_list.base()) and set_irrelevant_change for every member of gap.gap_list.iter() on every path from the validity '
+                  'checks to the marker update')
+    R = 'rtps::reader::Reader::'
+    hb = fx.find(R + 'handle_heartbeat_msg')
+    rep.analysed(hb)
+    n = 0
+    for c in fx.closures_of(hb):
+        og = Origins(c, summaries=False)
+        up = []
+        for bb, t in c.calls():
+            if call_matches(t, 'RtpsWriterProxy::irrelevant_changes_up_to'):
+                v = resolve_captures(fx, c, og.of_operand(t['args'][1], bb, 'term'), summaries=False)
+                up.append((bb, has_field(v, 'first_sn')))
+        uses = [(bb, 'term') for bb, t in c.calls() if call_matches(t, 'RtpsWriterProxy::missing_seqnums', 'mark_reliably_received_before')]
+        if not uses and not up:
+            continue
+        n += 1
+        P = Pos(c)
+        ok = bool(up) and all(g for _, g in up) and bool(uses)
+        for u in uses:
+            if not P.every_path_passes(None, u, via_pos=[(bb, 'term') for bb, _ in up], from_entry=True):
+                ok = False
+        rep.check(ok, rid, 'handle_heartbeat_msg/first-sn-applied', 'irrelevant_changes_up_to(heartbeat.first_sn) before the scan and the marker update',
+                  'the HEARTBEAT worker does not apply heartbeat.first_sn to the writer proxy before it scans for missing numbers / moves the marker: samples the writer no longer '
+                  'has stay "missing", the reader requests them forever and never hands over what follows', c.where(up[0][0]) if up else c.where())
+    rep.floor(rid, n, 1, 'HEARTBEAT worker closures')
+    b = fx.find('rtps::rtps_writer_proxy::RtpsWriterProxy::irrelevant_changes_up_to')
+    rep.analysed(b)
+    og = Origins(b, summaries=False)
+    P = Pos(b)
+    rc = []
+    for bb, t in b.calls():
+        if call_matches(t, 'RtpsWriterProxy::irrelevant_changes_range'):
+            a1 = og.of_operand(t['args'][1], bb, 'term')
+            a2 = og.of_operand(t['args'][2], bb, 'term')
+            lo = [x for x in term_leaves(a1) if x[0] != 'call']
+            good = a2 == ('param', 2) and a1[0] == 'call' and a1[1].endswith(('SequenceNumber::new', '::from', 'SequenceNumber::zero', 'default')) and \
+                bool(lo) and all(x[0] == 'const' and str(x[2]).lstrip('-').isdigit() and int(x[2]) <= 1 for x in lo)
+            rc.append((bb, good))
+    ok = len(rc) == 1 and rc[0][1] and all(P.every_path_passes(None, (r, 'term'), via_pos=[(rc[0][0], 'term')], from_entry=True) for r in b.return_blocks())
+    rep.check(ok, rid, 'irrelevant_changes_up_to/range-from-start', 'irrelevant_changes_range(c <= 1, smallest_seqnum) on every path',
+              'irrelevant_changes_up_to(x) does not mark everything below x as irrelevant (on every path)', b.where())
+    g = fx.find(R + 'handle_gap_msg')
+    rep.analysed(g)
+    og = Origins(g, summaries=False)
+    P = Pos(g)
+    edges = list(switch_edges(g, fx, og))
+    rng = []
+    for bb, t in g.calls():
+        if call_matches(t, 'RtpsWriterProxy::irrelevant_changes_range'):
+            a1 = og.of_operand(t['args'][1], bb, 'term')
+            a2 = og.of_operand(t['args'][2], bb, 'term')
+            rng.append((bb, has_field(a1, 'gap_start') and a2[0] == 'call' and a2[1].endswith('::base') and has_field(a2, 'gap_list')))
+    marks = [(bb, 'term') for bb, t in g.calls() if call_matches(t, 'mark_reliably_received_before')]
+    ok = len(rng) == 1 and rng[0][1] and bool(marks)
+    why = 'range call'
+    for m in marks:
+        if rng and not P.every_path_passes(None, m, via_pos=[(rng[0][0], 'term')], from_entry=True):
+            ok = False
+    # the loop over the explicit list
+    nl = 0
+    for lp in natural_loops(g):
+        blocks = lp[1]
+        nxt = [(bb, t) for bb, t in g.calls() if bb in blocks and callee_res(t).endswith('::next') and
+               term_has(og.of_operand(t['args'][0], bb, 'term'), lambda x: x[0] == 'call' and x[1].endswith('::iter') and has_field(x, 'gap_list'))]
+        if not nxt:
+            continue
+        nl += 1
+        nb = nxt[0][0]
+        some = [(s_, t_) for s_, t_, cond, lab in edges if lab == 'Some' and s_ in blocks and cond[0] == 'discr' and cond[1][0] == 'call' and cond[1][1].endswith('::next')]
+        sets = []
+        for bb, t in g.calls():
+            if bb in blocks and call_matches(t, 'RtpsWriterProxy::set_irrelevant_change'):
+                v = og.of_operand(t['args'][1], bb, 'term')
+                if term_has(v, lambda x: x[0] == 'variant' and x[1] == 'Some') and has_call(v, '::next'):
+                    sets.append((bb, 'term'))
+        if not some or not sets or any(P.can_reach((t_, 0), (nb, 'term'), avoid_pos=sets) for s_, t_ in some):
+            ok = False
+            why = 'a member of gap_list is skipped'
+        for m in marks:
+            if not P.every_path_passes(None, m, via_pos=[(nb, 'term')], from_entry=True):
+                ok = False
+                why = 'the marker update can be reached without going through the list'
+    ok = ok and nl == 1
+    rep.check(ok, rid, 'handle_gap_msg/gap-applied', 'range [gap_start, gap_list.base()) and every listed number marked irrelevant before the marker update',
+              'handle_gap_msg does not apply the whole GAP to the writer proxy (%s): numbers the writer declared unavailable stay missing, the reader requests them again and '
+              'again and the samples behind them are never handed over' % why, g.where(rng[0][0]) if rng else g.where())
+
+
+def rule_handler_admission(rep, fx, rid):
+    """Which HEARTBEATs / GAPs the Reader acts upon, as decision tables over the tests in front of the worker (rdv/boolform: every assignment of the atoms)."""
+    from rdv import boolform
+    rep.rule(rid, 'handler admission: handle_heartbeat_msg reaches its worker (with_mutable_writer_proxy) exactly when the Reader is not BestEffort, not stateless-like and knows the '
+                  'writer, and returns without effect otherwise; handle_gap_msg reaches irrelevant_changes_range whenever the Reader is not stateless-like, knows the writer and '
+                  'gap_start > 0 and gap_list.base() > 0, and never for a stateless-like Reader or an unknown writer (decision tables over these tests, all assignments; what '
+                  'happens to an invalid GAP is left open); with_mutable_writer_proxy runs the worker on the detached proxy and '
+                  'puts it back on every path, its panic lies behind "the re-insert found another proxy"')
+    R = 'rtps::reader::Reader::'
+
+    def namer_call(t, og, bb):
+        cr = callee_res(t)
+        last = cr.rsplit('::', 1)[-1]
+        if last in ('eq', 'ne') and len(t['args']) == 2:
+            txt = ' '.join(term_str(og.of_operand(x, bb, 'term')) for x in t['args'])
+            if 'reliability' in txt and 'BestEffort' in txt:
+                return last + ':besteffort'
+        if last == 'contains_key' and has_field(og.of_operand(t['args'][0], bb, 'term'), 'matched_writers'):
+            return 'knows'
+        if last in ('le', 'lt', 'gt', 'ge') and len(t['args']) == 2:
+            a, b_ = (og.of_operand(x, bb, 'term') for x in t['args'])
+            ks = [str(x[2]) for x in term_leaves(b_) if x[0] == 'const'] if not term_has(b_, lambda x: x[0] in ('field', 'param')) else []
+            # over the integers  x <= 0  is  x < 1  and  x > 0  is  x >= 1
+            op = {('le', '0'): 'le', ('lt', '1'): 'le', ('gt', '0'): 'gt', ('ge', '1'): 'gt'}.get((last, ks[0]), 'other') if len(ks) == 1 else None
+            if op and has_field(a, 'gap_start'):
+                return op + ':gap_start'
+            if op and has_call(a, '::base') and has_field(a, 'gap_list'):
+                return op + ':base'
+        return None
+
+    def namer_discr(cond):
+        if cond == ('field', 'like_stateless', ('param', 1)):
+            return 'stateless'
+        if cond[0] == 'un' and cond[1] == 'Not' and cond[2] == ('field', 'like_stateless', ('param', 1)):
+            return '!stateless'
+        if cond[0] == 'discr' and has_call(cond[1], 'matched_writer_mut'):
+            return 'proxy'
+        return None
+
+    def truth(assign, name):
+        """value of the positive fact `name` under an assignment of the atoms as written in the code"""
+        for k, v in assign.items():
+            if k == name:
+                return v
+            if k == '!' + name:
+                return not v
+            if ':' in k and k.split(':', 1)[1] == name:
+                op = k.split(':', 1)[0]
+                return v if op in ('eq', 'le') else (not v if op in ('ne', 'gt') else None)
+        return None
+
+    # ---- HEARTBEAT
+    hb = fx.find(R + 'handle_heartbeat_msg')
+    rep.analysed(hb)
+    wk = [bb for bb, t in hb.calls() if call_matches(t, 'Reader::with_mutable_writer_proxy')]
+    if len(wk) != 1:
+        raise CheckBroken('handle_heartbeat_msg: expected one with_mutable_writer_proxy call, found %d' % len(wk))
+    T = boolform.table(hb, fx, namer_call, namer_discr, stop_blocks={wk[0]: 'processed'})
+    names = {a.split(':')[-1].lstrip('!') for a in T.atoms}
+    bad = []
+    if not {'besteffort', 'stateless', 'knows'} <= names:
+        bad.append('tests found: %s' % sorted(names))
+    else:
+        import itertools
+        for vals in itertools.product((False, True), repeat=len(T.atoms)):
+            assign = dict(zip(T.atoms, vals))
+            be, sl, kn = truth(assign, 'besteffort'), truth(assign, 'stateless'), truth(assign, 'knows')
+            want = 'processed' if (not be and not sl and kn) else False
+            got = T.eval(assign)
+            if got != want:
+                bad.append('BestEffort=%s stateless=%s knows-writer=%s -> %s' % (be, sl, kn, 'ignored' if got is False else got))
+    rep.check(not bad, rid, 'handle_heartbeat_msg/admission', 'processed <=> reliable AND stateful AND writer known (8 assignments)',
+              'handle_heartbeat_msg does not act on exactly the HEARTBEATs of known writers in a reliable stateful Reader (%s): a reliable Reader that ignores HEARTBEATs never '
+              'requests what it lost' % '; '.join(bad[:3]), hb.where())
+    # ---- GAP
+    g = fx.find(R + 'handle_gap_msg')
+    rep.analysed(g)
+    rg = [bb for bb, t in g.calls() if call_matches(t, 'RtpsWriterProxy::irrelevant_changes_range')]
+    if len(rg) != 1:
+        raise CheckBroken('handle_gap_msg: expected one irrelevant_changes_range call, found %d' % len(rg))
+    T = boolform.table(g, fx, namer_call, namer_discr, stop_blocks={rg[0]: 'processed'})
+    names = {a.split(':')[-1].lstrip('!') for a in T.atoms}
+    bad = []
+    if not {'stateless', 'proxy', 'gap_start', 'base'} <= names:
+        bad.append('tests found: %s' % sorted(names))
+    else:
+        import itertools
+        dom = {a: (('None', 'Some') if a == 'proxy' else (False, True)) for a in T.atoms}
+        for vals in itertools.product(*[dom[a] for a in T.atoms]):
+            assign = dict(zip(T.atoms, vals))
+            sl = truth(assign, 'stateless')
+            nonpos_start, nonpos_base = truth(assign, 'gap_start'), truth(assign, 'base')      # "x <= 0"
+            want = 'processed' if (not sl and assign['proxy'] == 'Some' and not nonpos_start and not nonpos_base) else None
+            got = T.eval(assign)
+            if not sl and assign['proxy'] == 'Some' and (nonpos_start is not False or nonpos_base is not False):
+                continue        # what happens to an invalid GAP (or under a validity test of another form) is not this property's matter
+            if got != want:
+                bad.append('stateless=%s proxy=%s gap_start<=0:%s base<=0:%s -> %s' % (sl, assign['proxy'], nonpos_start, nonpos_base, 'ignored' if got is None else got))
+    rep.check(not bad, rid, 'handle_gap_msg/admission', 'stateful AND writer known AND gap_start > 0 AND gap_list.base() > 0 => processed; stateless or unknown writer => ignored (16 assignments)',
+              'handle_gap_msg does not act on exactly the valid GAPs of known writers (%s): numbers declared unavailable stay missing for ever, or an invalid GAP is applied' %
+              '; '.join(bad[:3]), g.where())
+    # ---- the wrapper
+    w = fx.find(R + 'with_mutable_writer_proxy')
+    rep.analysed(w)
+    og = Origins(w, summaries=False)
+    P = Pos(w)
+    edges = list(switch_edges(w, fx, og))
+    some = [(s_, t_) for s_, t_, cond, lab in edges if lab == 'Some' and cond[0] == 'discr' and cond[1][0] == 'call' and cond[1][1].endswith('::remove') and has_field(cond[1], 'matched_writers')]
+    work = [(bb, 'term') for bb, t in w.calls() if t['f'].get('rk') in ('fnptr', 'param', 'closure', 'dyn') or callee_res(t).endswith(('FnOnce::call_once', 'FnMut::call_mut', 'Fn::call'))]
+    back = [(bb, 'term') for bb, t in w.calls() if callee_res(t).endswith('::insert') and has_field(og.of_operand(t['args'][0], bb, 'term'), 'matched_writers')]
+    ok = len(some) == 1 and bool(work) and bool(back)
+    why = 'shape'
+    for s_, t_ in some:
+        for r in w.return_blocks():
+            if P.can_reach((t_, 0), (r, 'term'), avoid_pos=work) or P.can_reach((t_, 0), (r, 'term'), avoid_pos=back):
+                ok = False
+                why = 'a path from the detached proxy to the return skips the worker or the re-insert'
+    dup = [(s_, t_) for s_, t_, cond, lab in edges if (cond[0] == 'call' and cond[1].endswith('::is_some') and lab is True and has_call(cond, '::insert')) or
+           (cond[0] == 'discr' and lab == 'Some' and cond[1][0] == 'call' and cond[1][1].endswith('::insert'))]
+    for bb, t in w.calls():
+        cr = callee_res(t)
+        if 'panic' in cr or cr.endswith(('begin_panic', 'panic_fmt', 'unreachable_display', 'expect_failed', 'unwrap_failed')):
+            if not dup or not P.every_path_passes(None, (bb, 'term'), via_edges=dup, from_entry=True):
+                ok = False
+                why = 'the panic is reachable without a duplicate proxy having been found'
+    rep.check(ok, rid, 'with_mutable_writer_proxy/runs-and-reattaches', 'proxy detached => worker(proxy) and re-insert on every path; panic only behind insert(..).is_some()',
+              'with_mutable_writer_proxy does not run the worker on the detached writer proxy and put it back (%s): the HEARTBEAT is lost with the proxy, or the event loop panics on '
+              'every HEARTBEAT' % why, w.where())
